@@ -263,10 +263,14 @@ package state
 //@   noverify
 //@   ensures existing_maps_untouched: mapsFrame(string, bool, nil)
 //@   ensures identities_in_a_new_map: result1 == nil || isfresh(result1)
+// A transaction passes the contract-permission check only if EVERY request of it passes the
+// rule of the method it invokes, judged with the signers that were authenticated.
 //@ func State.verifyContractPermission
-//@   noverify
+//@   property C07 C11
 //@   sets passed = passInc(old(passed), tx, 3, result0)
 //@   ensures other_maps_untouched: mapsFrame(string, bool, nil)
+//@   ensures [C07] every_request_passes_its_method_rule: result0 && tx != nil && tx.ContractRequests != nil ==> (forall k int :: 0 <= k && k < len(tx.ContractRequests) ==> utils.CheckContractMethodPerm(t.sctx.AclMgr, allUsers, (tx.ContractRequests[k] == nil ? "" : tx.ContractRequests[k].ContractName), (tx.ContractRequests[k] == nil ? "" : tx.ContractRequests[k].MethodName)))
+//@   loop 1 invariant requests_so_far_pass: 0 <= i && i <= len(req) && req == tx.ContractRequests && mapsFrame(string, bool, nil) && (forall k int :: 0 <= k && k < i ==> utils.CheckContractMethodPerm(t.sctx.AclMgr, allUsers, (req[k] == nil ? "" : req[k].ContractName), (req[k] == nil ? "" : req[k].MethodName)))
 //@ func State.verifyContractTxAmount
 //@   noverify
 //@   sets passed = passInc(old(passed), tx, 4, result0)
